@@ -82,6 +82,9 @@ volatile bool PPL::Watchdog::alarm_clock_running = false;
 // Whether we are changing data which are also changed by the signal handler.
 volatile bool PPL::Watchdog::in_critical_section = false;
 
+// Whether a timeout occurred while we were in a critical section.
+volatile bool PPL::Watchdog::timeout_deferred = false;
+
 namespace {
 
 void
@@ -143,7 +146,9 @@ PPL::Watchdog::stop_timer() {
 void
 PPL::Watchdog::handle_timeout(int) {
   if (in_critical_section) {
-    reschedule();
+    // Do not touch the data the interrupted code is working on:
+    // the timeout is handled on exit from the critical section.
+    timeout_deferred = true;
   }
   else {
     time_so_far += last_time_requested;
@@ -233,7 +238,20 @@ PPL::Watchdog::remove_watchdog_event(WD_Pending_List::iterator position) {
   pending.erase(position);
 }
 
-PPL::Implementation::Watchdog::Time PPL::Watchdog::reschedule_time(1);
+void
+PPL::Watchdog::leave_critical_section() {
+  in_critical_section = false;
+  if (timeout_deferred) {
+    timeout_deferred = false;
+    // Unless the timer has been restarted in the meantime, it is
+    // expired and the timeout still has to be handled.
+    Implementation::Watchdog::Time time_to_shoot;
+    get_timer(time_to_shoot);
+    if (time_to_shoot.seconds() == 0 && time_to_shoot.microseconds() == 0) {
+      handle_timeout(0);
+    }
+  }
+}
 
 void
 PPL::Watchdog::initialize() {
